@@ -94,7 +94,7 @@ def chain (depth : Nat) (leaf : String) : Value :=
 def render (ok : Bool) (val : String) (rerr derr : Option Err) (s : St) : String :=
   s!"{boolStr ok}|{if ok then val else "-"}|{errStr rerr}|{errStr derr}|{s.inp.length}|{litsStr s.lits}"
 
-/-- run one reader of the decoder model over `inp`; `none` = unmodelled (8-bit flag bytes) -/
+/-- run one reader of the decoder model over `inp` (`none` = unmodelled; no reader is at present) -/
 def runReader (side : Side) (reader : String) (inp : B) : Option String :=
   let s0 : St := { inp := inp }
   -- every nesting level spends one unit in readValue and one in readItems per byte consumed
@@ -104,16 +104,12 @@ def runReader (side : Side) (reader : String) (inp : B) : Option String :=
   | "string" => let (ok, v, s) := expectString side s0; some (render ok (hexN v) none s.err s)
   | "mailbox" => let (ok, v, s) := expectMailbox side s0; some (render ok (hexN v) none s.err s)
   | "flag" =>
-    if inp.any (· ≥ 128) then none else
     let (ok, v, s) := expectFlag s0; some (render ok (hexN v) (if ok then none else s.err) s.err s)
   | "attr" =>
-    if inp.any (· ≥ 128) then none else
     let (ok, v, s) := expectMailboxAttr s0; some (render ok (hexN v) (if ok then none else s.err) s.err s)
   | "flags" =>
-    if inp.any (· ≥ 128) then none else
     let (e, vs, s) := expectFlagList fuel s0; some (render e.isNone (hexList vs) e s.err s)
   | "attrs" =>
-    if inp.any (· ≥ 128) then none else
     let (e, vs, s) := expectMailboxAttrList fuel s0; some (render e.isNone (hexList vs) e s.err s)
   | "n32" => let (ok, v, s) := expectNumber s0; some (render ok (toString v) none s.err s)
   | "n64" => let (ok, v, s) := expectNumber64 s0; some (render ok (toString v) none s.err s)
@@ -229,7 +225,9 @@ def oracleFlags (attr : Bool) (fs : List B) (single : Bool) (trailer : B) (enc d
   match encStatus enc with
   | some e => "fail:" ++ e
   | none =>
-  match refusal valid (enc = "E") with
+  -- refusal is judged against the RFC grammar for 7-bit flags only (the library lets bytes ≥ 0xA0
+  -- through); an accepted flag must come back the same whatever its bytes
+  match (if fs.all sevenBit then refusal valid (enc = "E") else none) with
   | some e => "fail:" ++ e
   | none =>
     if enc = "E" then "ok" else
@@ -315,6 +313,32 @@ def oracleValue (v : Value) (trailer : B) (enc dec disc : String) : String :=
         (peerClauses dd rest).map ("discard-" ++ ·)]
     | _, _ => "fail:bad-line"
 
+/-- decoder-side mailbox names: when the bytes are a well-formed astring (strict RFC reader, any
+    8-bit byte allowed in a string) on which the library's lexer and the RFC's agree, `ExpectMailbox`
+    must accept the name exactly when it is INBOX (any case) or valid modified UTF-7
+    (`Utf7Spec.specDecode`), and return what it denotes -/
+def oracleRawMailbox (side : Side) (wire : B) (dec : String) : String :=
+  match rAString true wire, dec? dec with
+  | some (content, rest, fr), some d =>
+    let isStr := wire.head? = some 34 || wire.head? = some 123
+    let judged :=
+      if isStr then
+        match fr with
+        | .literal _ nonSync _ => !nonSync || side = .server
+        | .quoted => true
+      else
+        -- atoms: the library's ATOM-CHAR differs from the RFC's on "]" and on bytes ≥ 0xA0
+        !content.contains 93 && (match rest with | b :: _ => b < 128 && b ≠ 93 | [] => false)
+    if !judged then "ok" else
+    match mailboxMeaning content with
+    | some name =>
+      if !d.ok then "fail:valid-mailbox-rejected"
+      else if d.val ≠ hexN name then "fail:mailbox-decoded-wrongly"
+      else if d.left ≠ rest.length then s!"fail:not-exact-consumption@left={d.left}"
+      else "ok"
+    | none => if d.ok then "fail:malformed-mailbox-accepted" else "ok"
+  | _, _ => "ok"
+
 def short (s : String) : String := if s.length > 400 then s!"{s.take 200}…({s.length})" else s
 
 def answer (id : String) (model : Option (List String)) (impl : List String) (orc : String) : String :=
@@ -345,7 +369,6 @@ def handle (f : List String) : String :=
   | [id, "flag", c, which, fh, th, enc, waits, dec] =>
     match cfg? c, hexB? fh, hexB? th with
     | some cfg, some fl, some t =>
-      if !sevenBit fl then s!"{id}\t1\tok\tunmodelled" else
       let attr := which = "a"
       answer id (runCase cfg (fun e => some (if attr then encAttr fl e else encFlag fl e)) t [if attr then "attr" else "flag"])
         [enc, waits, dec] (oracleFlags attr [fl] true t enc dec)
@@ -353,7 +376,6 @@ def handle (f : List String) : String :=
   | [id, "flags", c, which, fhs, th, enc, waits, dec] =>
     match cfg? c, hexList? fhs, hexB? th with
     | some cfg, some fls, some t =>
-      if !fls.all sevenBit then s!"{id}\t1\tok\tunmodelled" else
       let attr := which = "a"
       let body : Enc → Option Enc := fun e =>
         let rec items : Bool → List B → Enc → Enc
@@ -395,7 +417,8 @@ def handle (f : List String) : String :=
     match hexB? wh with
     | some w =>
       let side : Side := if sd = "c" then .client else .server
-      answer id ((runReader side reader w).map fun d => [d]) [dec] "ok"
+      answer id ((runReader side reader w).map fun d => [d]) [dec]
+        (if reader = "mailbox" then oracleRawMailbox side w dec else "ok")
     | none => bad id
   | id :: _ => bad id
   | [] => "?\t0\tfail:bad-line\t-"
